@@ -17,6 +17,7 @@ CONSTANTS Leaves,      \* set of leaf recipes [c |-> "leaf", id, lo, hi]
           IdOpts,      \* subset of {"gen", "exp"}
           MaxComp,     \* number of constructor applications
           MaxKids,     \* arguments per application
+          MinKids,     \* 0 allows propositions without sub-propositions (All(), Any(), ...)
           DictIds,     \* how many ids an assumption / partial interpretation may name
           FixOpts,     \* subset of {-1, 0, 1}: pre-fixing of explicitly named compounds by their own bounds (-1 = not fixed)
           ExpIds       \* explicit ids to draw from ({} = a fresh id "N<k>" per application); a non-empty set
@@ -28,7 +29,7 @@ vars == <<pool, focus, nb>>
 (* ---- the machine ----------------------------------------------------------*)
 RIds(r) == Ids(Mk(r))
 Usable == Leaves \cup { r \in pool : r.c # "Cfg" }      \* a configurator is never an argument
-ArgSets == { S \in SUBSET Usable : Cardinality(S) >= 1 /\ Cardinality(S) <= MaxKids }
+ArgSets == { S \in SUBSET Usable : Cardinality(S) >= MinKids /\ Cardinality(S) <= MaxKids }
 \* arguments must have pairwise distinct ids and may not (re)define an id of another argument's sub tree differently
 Compatible(S) == /\ \A x, y \in S : x # y => Mk(x).id # Mk(y).id
 Adversarial == ExpIds # {}
